@@ -1,8 +1,19 @@
 """C07 - DTD validity: ContentModel + DtdValidity specifications, binder T (fast path: content models, full path: attribute /
 ID / IDREF / root / standalone scenarios), every expectation emitted by TLC.
 
-Mutants (mutants/C07/*.diff, `./bin/mutant-run C07 mutants/C07/*.diff`): see the list at the end of this file's META note;
-all are detected in the quick tier.
+Stages (cheapest first): DtdValidity root, idref; ContentModel items, cm; DtdValidity attr. Each stage = TLC's own check of the
+specification (operational layer = declarative layer) + binder T. VERIF_FAIL_FAST=1 stops after the first stage with a new disagreement.
+
+Mutants (mutants/C07/*.diff, `VERIF_FAIL_FAST=1 ./bin/mutant-run C07 mutants/C07/*.diff`), all detected in the quick tier:
+  idrefs_unchecked             XMLScanner::checkIDRefs condition inverted: dangling IDREF unreported           (stage dv_idref)
+  id_reuse_only_if_referenced  DTDValidator: repeated ID reported only if it was referenced                    (stage dv_idref)
+  required_not_checked_ns      IGXMLScanner::buildAttList (namespace path only): #REQUIRED not enforced        (stage dv_attr, cfg sax2-IG-ns)
+  mixed_last_name              MixedContentModel: last declared name of (#PCDATA|a|b)* rejected                (stage items)
+  simple_opt_as_star           SimpleContentModel: (a)? accepts more than one child                            (stage items / cm)
+  dfa_followpos_plus           DFAContentModel: followpos of + omitted                                         (stage cm)
+
+Genuine defects found on the unchanged tree: known_findings.d/C07.json (enumerated attribute values not normalised by IGXMLScanner with
+namespaces; multi-token values of enumerated/NOTATION attributes accepted).
 """
 import json
 import os
@@ -184,10 +195,14 @@ def replay(out, path):
     os.makedirs(os.path.dirname(tmp), exist_ok=True)
     with open(tmp, "w") as f:
         f.write(doc)
+    with open(tmp + ".ext", "w") as f:
+        f.write(case.get("external", ""))
+    cfgname = cls.get("cfg", "all") if cls.get("cfg") not in (None, "direct") else "all"
     try:
-        rc, o = C.run([exe, "one", cls.get("cfg", "all") if cls.get("via") != "direct" else "all", "1" if case.get("validate", 1) else "0", tmp])
+        rc, o = C.run([exe, "one", cfgname, "1" if case.get("validate", 1) else "0", tmp, tmp + ".ext"])
     finally:
         os.unlink(tmp)
+        os.unlink(tmp + ".ext")
     n = 0
     for ln in o.splitlines():
         if not ln.startswith("{"):
@@ -195,6 +210,14 @@ def replay(out, path):
         ob = json.loads(ln)
         n += 1
         exp = cls.get("expected")
+        if not case.get("validate", 1):
+            exp = "valid"
         if exp in ("valid", "invalid") and ob["verdict"] != exp:
             out.disagree(cls, case, "replay: expected %s, observed %s (%s)" % (exp, ob["verdict"], ob["codes"]))
+        elif "expected_atts" in case and ob["verdict"] in ("valid", "invalid") and ob["elems"] != case["expected_atts"]:
+            out.disagree(cls, case, "replay: attributes %s, specification %s" % (ob["elems"], case["expected_atts"]))
+        elif cls.get("what", "").startswith("kind:"):
+            out.disagree(cls, case, "replay: constraint kind %s (codes observed: %s) - see the check for the kind table" % (cls["what"][5:], ob["codes"]))
+    if n == 0:
+        raise C.InfraError("replay produced no observation:\n" + o[-2000:])
     out.coverage.update(evaluations=n, distinct_nontrivial=1, samples=[doc], states=1, transitions=1, traces_validated_against_impl=n)
